@@ -223,6 +223,9 @@ fn exec_op(bars: &BTreeMap<i64, ProgressBar>, mp: &Option<MultiProgress>, mine: 
         "drop" => { drop(pb); mine.remove(&b); }
         "mp_println" => { let _ = mp.as_ref().unwrap().println("P"); }
         "mp_remove" => { mp.as_ref().unwrap().remove(&pb.unwrap()); }
+        // a new bar placed after the shared one; the caller keeps it until its handles go away
+        "mp_insert_after" => { let nb = ProgressBar::with_draw_target(Some(10), ProgressDrawTarget::hidden()); let nb = mp.as_ref().unwrap().insert_after(&pb.unwrap(), nb);
+                               let k = 1000 + mine.len() as i64; mine.insert(k, vec![nb]); }
         "mp_add" => { let nb = ProgressBar::with_draw_target(Some(10), ProgressDrawTarget::hidden()); let nb = mp.as_ref().unwrap().add(nb); nb.tick(); }
         _ => {}
     }
